@@ -28,12 +28,23 @@ from vf import boot, common, pool
 PID = "C12"
 RULE = ("case = one AST pushed through Serialize -> DecodeAst -> Encode / Serialize again (8 judgements "
         "each), or one pool of type nodes for the eq/hash laws.  non-trivial AST = >=1 class, >=1 generic "
-        "type and >=1 union; distinct by node-kind multiset + sha1 of the encoded bytes.  Non-trivial pair = "
+        "type and >=1 union; distinct by node-kind multiset + sha1 of the repr of the declarations.  Non-trivial pair = "
         "equal but not identical objects (counted; too few => inconclusive).")
 
 BUNDLED = ["builtins", "typing", "mypy_extensions", "protocols", "attr", "attr._cmp",
            "attr._version_info", "attr.converters", "attr.exceptions", "attr.filters", "attr.setters",
            "attr.validators", "attrs", "numpy", "collections", "dummy_thread", "encodings", "enum"]
+
+
+ALIAS_SNIPPET = '''
+import collections as cc_
+import enum as en_
+import attr.validators as av_
+lt_a = cc_.deque([1])
+class LtE(en_.Enum):
+  A = 1
+def lt_f(x: 'cc_.defaultdict[str, en_.Enum]', y: cc_.deque = None): return x
+'''
 
 
 def bundled_modules():
@@ -76,18 +87,18 @@ def _fp_of(ast, data_hash):
 
 def _judge(o, ast, out, cnt, kinds_seen, tag, **kw):
   """check_ast + bookkeeping.  Returns violations."""
-  from pytype.imports import pickle_utils
-  fp, nontrivial, kinds = _fp_of(ast, "")
+  _, nontrivial, kinds = _fp_of(ast, "")
   vs = o.check_ast(ast, counters=cnt, **kw)
   out["n"] += 1
   cnt["judged:" + tag] += 1
   kinds_seen.update(kinds.keys())
   if nontrivial:
-    # distinctness: kinds + text of the canonical print is expensive; use kinds + repr hash
-    h = hashlib.sha1(repr(sorted(kinds.items())).encode() + ast.name.encode() +
-                     str(len(repr(ast.constants))).encode() + str(len(repr(ast.functions))).encode() +
-                     str(len(repr(ast.classes))).encode()).hexdigest()
-    out["fps"].append(common.fp([tag.split("/")[0], h]))
+    # after check_ast the class pointers are cleared, so repr() is finite and stable
+    h = hashlib.sha1()
+    for part in (ast.constants, ast.type_params, ast.classes, ast.functions, ast.aliases):
+      h.update(repr(tuple(x if not hasattr(x, "_name2item") else x.Replace(_name2item=None)
+                          for x in part)).encode())
+    out["fps"].append(common.fp([sorted(kinds.items()), h.hexdigest()]))
   for w in vs:
     w["source"] = tag
   return vs
@@ -139,12 +150,12 @@ def child(arg):
       out["samples"].append({"source": "bundled", "pyver": list(pyver), "modules": sorted(mods)})
       # (2) the real bundle writer and the real pickled loader
       o.install_monitor()
-      ld2, mods2 = fresh()
+      ld2, _ = fresh()
       path = os.path.join(scratch, f"c12-bundle-{os.getpid()}.pickle")
       try:
         ld2.save_to_pickle(path)           # Serialize of every module (monitored) + gzip
         cnt["bundle_saved"] += 1
-        ref_ld, ref = fresh()
+        _, ref = fresh()
         pl = load_pytd.PickledPyiLoader.load_from_pickle(path, _opts(pyver))
         for n in sorted(ref):
           try:
@@ -199,6 +210,10 @@ def child(arg):
       rng = random.Random(seed)
       src = (programs.generate(rng) if flavour == "gen" else
              c05.junk_program(rng) if flavour == "junk" else c05.feature_program(rng))
+      if rng.random() < 0.35:
+        # external classes behind module aliases become LateType('alias.X') in the exported
+        # AST; SerializeAst must undo the alias
+        src += ALIAS_SNIPPET
       modname = rng.choice(["m", "pkg.mod", "a.b.c", "pkg.__init__"])
       opts = pt.options(module_name=modname)
       loader = load_pytd.create_loader(opts)
@@ -337,7 +352,7 @@ def _tasks(tier, seed):
     n_prog, per, n_unit, units_per, n_eq, pools = 40, 30, 32, 150, 8, 6
     pyvers = [(3, 12), (3, 11), (3, 10), (3, 9), (3, 8)]
   tasks = []
-  for i, pv in enumerate(pyvers):
+  for pv in pyvers:
     for hs in ("0", "1"):
       tasks.append({"fn": "vf.checks.c12:child", "id": f"bundled{pv}-{hs}", "timeout": 2400,
                     "hashseed": hs, "arg": {"kind": "bundled", "pyver": list(pv)}})
@@ -434,6 +449,7 @@ def replay(rec) -> int:
   for x in vs[:5]:
     print("  mechanism:", x["key"])
   if hit:
-    print(f"VIOLATION property=C12 replay={rec.get('key')}")
+    print("VIOLATION property=C12 replay=<replayed>")
+    print("  mechanism:", rec["key"])
     return 1
   return 0
